@@ -34,7 +34,7 @@ var renderings = map[int][]rendering{
 		{"2606:4700:4700::1111", `For="[2606:4700:4700::1111]"`, "2606:4700:4700::1111", ""},
 		{"[2606:4700:4700::1111]:443", `by=10.0.0.9; for="[2606:4700:4700::1111]:443"`, "2606:4700:4700::1111", ""},
 		{"93.184.216.34", "FOR=93.184.216.34 ; host=example.com", "93.184.216.34", ""},
-		{"192.18.0.1", "for=192.18.0.1", "192.18.0.1", ""},       // public (not the benchmarking block 198.18/15)
+		{"192.18.0.1", "for=192.18.0.1", "192.18.0.1", ""},             // public (not the benchmarking block 198.18/15)
 		{"192.19.255.255", "for=192.19.255.255", "192.19.255.255", ""}, // public
 		{"::ffff:8.8.4.4", `for="[::ffff:8.8.4.4]"`, "8.8.4.4", ""},
 		{"2a00:1450:4001:81b::200e", "for=[2a00:1450:4001:81b::200e]", "2a00:1450:4001:81b::200e", ""},
@@ -85,6 +85,60 @@ var renderings = map[int][]rendering{
 		{"", "", "", ""},
 		{" ", " ", "", ""},
 	},
+}
+
+// derived spellings: every IPv6 rendering also in its full (uncompressed) form with brackets and a port, which is the
+// longest spelling of an address an entry can have
+func init() {
+	for id, rs := range renderings {
+		var more []rendering
+		for _, rd := range rs {
+			if rd.addr == "" || !strings.Contains(rd.addr, ":") || strings.Contains(rd.addr, "%") {
+				continue
+			}
+			ip := net.ParseIP(rd.addr).To16()
+			if ip == nil {
+				continue
+			}
+			var groups []string
+			for i := 0; i < 16; i += 2 {
+				groups = append(groups, fmt.Sprintf("%02x%02x", ip[i], ip[i+1]))
+			}
+			full := strings.Join(groups, ":")
+			more = append(more, rendering{"[" + full + "]:65535", `for="[` + full + `]:8443"`, rd.addr, ""})
+			more = append(more, rendering{full, `for="[` + full + `]"`, rd.addr, ""})
+		}
+		renderings[id] = append(rs, more...)
+	}
+	renderings[1] = append(renderings[1],
+		rendering{"2606:4700:4700::1111%eth0", `for="[2606:4700:4700::1111%eth0]:4711"`, "2606:4700:4700::1111%eth0", ""},
+		rendering{"[2606:4700:4700:0000:0000:0000:0000:1111%eth0]:4711", `for="[2606:4700:4700:0000:0000:0000:0000:1111%eth0]"`, "2606:4700:4700::1111%eth0", ""})
+}
+
+// decorateForwarded surrounds a bare for= element with other parameters; for= stays among the first four
+// parameters, where RFC 7239 and the documentation place it, and is never the last of more than four.
+var fwdExtras = []string{"by=10.0.0.9", "host=example.com", "proto=https", "ext=1", `by="[fd00::9]:1"`, "secret=_x"}
+
+func decorateForwarded(rng *rand.Rand, el string) string {
+	if strings.Contains(el, ";") || strings.TrimSpace(el) == "" || rng.Intn(2) == 0 {
+		return el
+	}
+	before := rng.Intn(4) // 0..3 parameters in front: for= is at most the fourth
+	after := rng.Intn(3)
+	var parts []string
+	perm := rng.Perm(len(fwdExtras))
+	for i := 0; i < before; i++ {
+		parts = append(parts, fwdExtras[perm[i]])
+	}
+	parts = append(parts, el)
+	for i := 0; i < after; i++ {
+		parts = append(parts, fwdExtras[perm[before+i]])
+	}
+	sep := ";"
+	if rng.Intn(3) == 0 {
+		sep = "; "
+	}
+	return strings.Join(parts, sep)
 }
 
 var customRanges = []string{"198.41.128.0/17", "2400:cb00::/32"}
@@ -171,7 +225,7 @@ func replayIPVec(r *Run, v ipVec, rng *rand.Rand, setups map[string]*ipSetup, ev
 				rd := rs[rng.Intn(len(rs))]
 				flat = append(flat, rd)
 				if hdr == "Forwarded" {
-					parts = append(parts, rd.fwd)
+					parts = append(parts, decorateForwarded(rng, rd.fwd))
 				} else {
 					parts = append(parts, rd.xff)
 				}
@@ -240,6 +294,9 @@ func replayIPVec(r *Run, v ipVec, rng *rand.Rand, setups map[string]*ipSetup, ev
 		}
 		if err == nil && ip != nil {
 			got = ip.IP.String()
+			if ip.Zone != "" {
+				got += "%" + ip.Zone
+			}
 		}
 		if pan != nil || got != want {
 			r.violation(fmt.Sprintf("clientip strategy=single-header lines=%q", lines), map[string]any{"kind": "vector", "strategy": "single-header", "lines": lines,
